@@ -1171,6 +1171,14 @@ def build(tier='quick', seed=0):
         decl('int', 'u8', validators=[V('greater', '3', 3, 'lit'), V('less_or_equal', '255', 255, 'lit')], derives=['Debug', 'TryFrom', 'Arbitrary'], tags=['trivial']),
         decl('int', 'i8', validators=[V('greater_or_equal', '-128', -128, 'lit'), V('less_or_equal', '127', 127, 'lit')], derives=['Debug', 'TryFrom', 'Arbitrary'], tags=['trivial']),
         decl('int', 'u16', validators=[V('greater_or_equal', '0', 0, 'lit')], derives=['Debug', 'TryFrom', 'FromStr'], tags=['trivial']),
+        # ... and the exclusive neighbours, which exclude exactly one value
+        decl('int', 'u8', validators=[V('greater', '0', 0, 'lit')], derives=['Debug', 'TryFrom', 'Arbitrary'], tags=['trivial']),
+        decl('int', 'u8', validators=[V('less', '255', 255, 'lit')], derives=['Debug', 'TryFrom', 'Arbitrary'], tags=['trivial']),
+        decl('int', 'i8', validators=[V('greater', '-128', -128, 'lit'), V('less', '127', 127, 'lit')], derives=['Debug', 'TryFrom', 'Arbitrary'], tags=['trivial']),
+        decl('int', 'u64', validators=[V('less', '18_446_744_073_709_551_615', 18446744073709551615, 'lit')], derives=['Debug', 'TryFrom', 'Arbitrary'], tags=['trivial']),
+        decl('int', 'i128', validators=[V('greater', '-170141183460469231731687303715884105728', -170141183460469231731687303715884105728, 'lit')],
+             derives=['Debug', 'TryFrom', 'Arbitrary'], tags=['trivial']),
+        decl('int', 'usize', validators=[V('greater', '0', 0, 'lit')], derives=['Debug', 'TryFrom'], tags=['trivial']),
         decl('int', 'i64', validators=[V('less_or_equal', '9223372036854775807', 9223372036854775807, 'lit'), V('greater', '0', 0, 'lit')], derives=['Debug', 'TryFrom'], tags=['trivial']),
         decl('float', 'f64', validators=[V('greater_or_equal', 'f64::NEG_INFINITY', float('-inf'), 'expr'), V('less', '1.0', 1.0, 'lit')], derives=['Debug', 'TryFrom'], tags=['trivial']),
         decl('float', 'f32', validators=[V('less_or_equal', 'f32::INFINITY', float('inf'), 'expr')], derives=['Debug', 'TryFrom'], tags=['trivial']),
